@@ -33,6 +33,7 @@ class Words:
         self.rng = rng
         self.n = 0
         self.scripts = scripts
+        self.lone = True
 
     def one(self):
         self.n += 1
@@ -52,7 +53,13 @@ class Words:
         return 'w%d' % self.n
 
     def some(self, n=None):
-        return ' '.join(self.one() for _ in range(n or self.rng.randint(1, 4)))
+        ws = [self.one() for _ in range(n or self.rng.randint(1, 4))]
+        out = ws[0]
+        for w in ws[1:]:
+            # now and then a lone marker character between two words (and/or, a*b, snake_case): the grammar reads it as a
+            # text node of its own, so such runs reach the XML builder as several adjacent text nodes
+            out += (self.rng.choice(['/', '*', '_', ' / ', ' * ']) if self.lone and self.rng.random() < 0.06 else ' ') + w
+        return out
 
 
 # ------------------------------------------------------------------ noise
@@ -431,7 +438,7 @@ class DocGen:
                 out += self.speech(ind + 1, depth + 1)
             return out
         if depth < 3 and r < 0.6:
-            head = rnd.choice(SPEECH_GROUPS) + rnd.choice(['', '', '{by #me}'])
+            head = rnd.choice(SPEECH_GROUPS) + rnd.choice(['', '', '{by #me}', '{by /ontology/person/%s}' % self.w.one()])
             if rnd.random() < 0.3:
                 head += ' ' + self.num()
             out = [p + head, p + '  FROM ' + self.text()]
@@ -636,7 +643,8 @@ def _ind(lines, n):
 # words marked ~ are payload: pairwise_docs(tokens=True) turns each into a distinct token w<N> (C03), otherwise the mark is dropped
 PW_INLINES = ['**~b**', '//~i//', '__~u__', '{{^~sup}}', '{{_~sub}}', '{{>http://x.y/z ~ref}}', '{{>#sec_1 **~b**}}', '{{term{refersTo #t} ~term}}',
               '{{abbr{title T} ~abbr}}', '{{em ~em}}', '{{+~ins}}', '{{-~del}}', '{{def ~def}}', '{{inline{name foo} ~inl}}', '{{*~remark}}',
-              '{{IMG http://a/b.png alt}}', '**~b** //~i//', '~a \\*\\* ~b', '{{em{class c} ~x}}']
+              '{{IMG http://a/b.png alt}}', '**~b** //~i//', '~a \\*\\* ~b', '{{em{class c} ~x}}',
+              '**~a****~b**', '//~a////~b//', '__~a____~b__', '~see **~note*** ~and ~also **~this**']
 
 
 def pw_inner_blocks():
@@ -744,4 +752,17 @@ def pairwise_docs(tokens=False):
             t = tmpl.replace('%s', inl)
             root = 'debate' if pn in ('from', 'scene') else 'act'
             out.append(('%s/inl%d' % (pn, i), _pw_finish(t, tokens), root))
+    # a footnote reference 0-3 inline levels deep in every one-line position, its block where the position's element takes it
+    for d, wrap in enumerate(['%s', '**%s**', '**//%s//**', '{{^**%s**}}', '{{em __//%s//__}}']):
+        ref = wrap % '~w{{FOOTNOTE 1}}'
+        for pn, tmpl in [('para', '~p %s ~q\nFOOTNOTE 1\n  ~note\n'), ('heading', 'SEC 1. - ~H %s ~end\n  FOOTNOTE 1\n    ~note\n  ~x\n'),
+                         ('subheading', 'SEC 1.\n  SUBHEADING ~S %s\n  FOOTNOTE 1\n    ~note\n  ~x\n'),
+                         ('crossheading', 'CROSSHEADING ~C %s\nFOOTNOTE 1\n  ~note\nSEC 1.\n  ~x\n'),
+                         ('listintro', 'ITEMS\n  ~intro %s\n  FOOTNOTE 1\n    ~note\n  ITEM (a)\n    ~x\n'),
+                         ('itemhead', 'ITEMS\n  ITEM (a) - %s\n    FOOTNOTE 1\n      ~note\n    ~x\n'),
+                         ('bulletline', 'BULLETS\n  * ~b %s\n    FOOTNOTE 1\n      ~note\n'),
+                         ('atthead', '~x\nSCHEDULE ~S %s\n  FOOTNOTE 1\n    ~note\n  ~y\n'),
+                         ('attsub', '~x\nSCHEDULE ~S\n  SUBHEADING %s\n  FOOTNOTE 1\n    ~note\n  ~y\n'),
+                         ('cell', 'TABLE\n  TR\n    TC\n      ~c %s\n      FOOTNOTE 1\n        ~note\n')]:
+            out.append(('%s/fn-depth%d' % (pn, d), _pw_finish(tmpl.replace('%s', ref), tokens), 'act'))
     return out
